@@ -925,6 +925,16 @@ func (r *chainRun) replayPath(f *Node, n *Node, path []*MBlock) *Violation {
 			f.L.ConfirmBlock(CloneBlock(mb.Block), false)
 		}
 	}
+	// two ways a node catches up: block by block (Play), or one Walk over the whole path (what the
+	// sync path and a restarted node do); which one is a function of the plan and the step
+	if (r.plan.Seed+uint64(r.step))%2 == 1 && len(path) > 1 {
+		last := path[len(path)-1]
+		r.rc.St.Probes["fresh-replay-by-walk"]++
+		if err := f.S.Walk(last.ID, false); err != nil {
+			return r.viol("fresh-replay-refused", "fresh node cannot walk to block %s (h=%d) of the chain %s sits on: %v", hx(last.ID), last.Height, n.Name, err)
+		}
+		return nil
+	}
 	for _, mb := range path[1:] {
 		if err := f.S.Play(mb.ID); err != nil {
 			return r.viol("fresh-replay-refused", "fresh node cannot play block %s (h=%d) of the chain %s sits on: %v", hx(mb.ID), mb.Height, n.Name, err)
